@@ -107,6 +107,11 @@ def ObtainQuantity(
             try:
                 return quantities_cache[tuple(key)]
             except KeyError:
+                # only a miss pays for it: every unit must belong to the quantity type of its category
+                for composing_category, (composing_unit, _exp) in unit.items():
+                    unit_database.CheckQuantityTypeUnit(
+                        unit_database.GetCategoryQuantityType(composing_category), composing_unit
+                    )
                 quantity = quantities_cache[tuple(key)] = Quantity(unit, None, unknown_unit_caption)
                 return quantity
 
